@@ -8,6 +8,7 @@ import (
 
 	"github.com/tyler-sommer/stick"
 	"github.com/tyler-sommer/stick/twig/escape"
+	"github.com/tyler-sommer/stick/twig/filter"
 
 	"verif/internal/sb"
 )
@@ -126,7 +127,9 @@ func opIterate(req *sb.Req) *sb.Resp {
 			parts := []string{fmt.Sprintf("len=%d,%v", ln, lerr != nil),
 				fmt.Sprintf("iterable=%v", stick.IsIterable(c)),
 				fmt.Sprintf("array=%v", stick.IsArray(c)),
-				fmt.Sprintf("map=%v", stick.IsMap(c))}
+				fmt.Sprintf("map=%v", stick.IsMap(c)),
+				// the Twig environment's length filter on the same value
+				fmt.Sprintf("lengthfilter=%s", Repr(filter.TwigFilters()["length"](nil, c)))}
 			// containment of every key probe
 			if i < len(req.Args) {
 				for _, a := range req.Args[i] {
